@@ -228,7 +228,9 @@ fn prog(name: String, scripts: Vec<Script>, ops: Vec<Op>, init: [[Option<u32>; N
 const ALL_COMPS: [[Option<u32>; NT]; NE] = [[Some(0), Some(0)], [Some(0), Some(0)], [Some(0), Some(0)], [Some(0), Some(0)]];
 
 fn reg(mode: Mode, bundle: Vec<Trig>, script: u8) -> Act {
-    Act::Register { mode, once: false, bundle, flavour: Flavour::Ord, script }
+    // registration form (bundle shape x API) varies deterministically with the parameters
+    let form = (script as usize + bundle.len() * 3 + mode as usize * 5) as u8 % 8;
+    Act::Register { mode, once: false, bundle, flavour: Flavour::Ord, script, form }
 }
 
 fn sys(op_acts: Vec<Act>) -> Op {
@@ -411,7 +413,7 @@ pub fn family_lifetime() -> Vec<Program> {
             for (si, shape) in shapes.iter().enumerate() {
                 for (ri, rel) in releases.iter().enumerate() {
                     for split in [false, true] {
-                        let r = Act::Register { mode: *mode, once, bundle: shape.clone(), flavour: Flavour::Ord, script: 0 };
+                        let r = Act::Register { mode: *mode, once, bundle: shape.clone(), flavour: Flavour::Ord, script: 0, form: ((mi + si + ri) % 8) as u8 };
                         let mut ops = vec![sys(vec![r])];
                         if split {
                             for a in rel.iter() {
@@ -751,7 +753,7 @@ pub fn family_probes() -> Vec<Program> {
                     };
                     let mut body = vec![Act::Mark, Act::Broadcast(1), Act::Mark];
                     body.insert(match pos { 0 => 0, 1 => 2, _ => 3 }, probe);
-                    let target = Act::Register { mode: Mode::Persistent, once: false, bundle: target_bundle(), flavour: fl, script: 0 };
+                    let target = Act::Register { mode: Mode::Persistent, once: false, bundle: target_bundle(), flavour: fl, script: 0, form: pos as u8 };
                     let nested = reg(Mode::Persistent, vec![Trig::Bc(1)], 1);
                     out.push(prog(
                         format!("probes-{:?}-{:?}-p{pos}-f{form}", k, fl),
